@@ -470,14 +470,26 @@ func (x *lcRunner) spendDetail(k int, kind string, op wire.OutPoint, h uint32) (
 		tx.AddTxIn(&wire.TxIn{PreviousOutPoint: op, Witness: lcWitness(w, ver)})
 		tx.AddTxOut(&wire.TxOut{Value: 50000 + int64(len(e.txNames)), PkScript: lcP2WKH})
 	}
-	idx := 0
-	for i, in := range tx.TxIn {
-		if in.PreviousOutPoint == op {
-			idx = i
-		}
-	}
 	if len(tx.TxIn) == 0 {
 		return nil, 0, false
+	}
+	idx, hit := 0, false
+	for i, in := range tx.TxIn {
+		if in.PreviousOutPoint == op {
+			idx, hit = i, true
+		}
+	}
+	if !hit {
+		// direct handler call with a transaction that spends an older outpoint of
+		// the account: report its account input (the one with an account witness)
+		for i, in := range tx.TxIn {
+			w := in.Witness
+			if poolscript.IsExpirySpend(w) || poolscript.IsMultiSigSpend(w) ||
+				poolscript.IsTaprootMultiSigSpend(w) || poolscript.IsTaprootExpirySpend(w) {
+				idx = i
+				break
+			}
+		}
 	}
 	if len(tx.TxIn[idx].Witness) == 0 {
 		// an unsigned (batch) transaction as it appears on chain
@@ -521,6 +533,7 @@ func (x *lcRunner) exec(o lcOp) {
 		}
 	}
 	inBatchBefore := e.inBatch(o.K)
+	batchBefore := append([]int(nil), e.batchAccts...)
 	r.Count("op/" + o.Op)
 	switch o.Op {
 	case "init":
@@ -769,6 +782,18 @@ func (x *lcRunner) exec(o lcOp) {
 	}
 	if x.bad == "" {
 		what, k := e.oracle(before, logFrom, userOp, accepted, x.hist)
+		if what != "" && strings.HasPrefix(k, "C08/i2-") && len(batchBefore) > 0 && len(e.batchAccts) == 0 &&
+			o.Op != "finalize" && o.Op != "drop" {
+			// MarkBatchComplete ran for the whole batch (bare completion, or triggered by
+			// another account's spend) without re-arming the watchers of this account
+			var acc int
+			fmt.Sscanf(what, "account %d", &acc)
+			for _, j := range batchBefore {
+				if j == acc && (o.Op == "complete" || j != o.K) {
+					k = "C08/complete-without-rewatch"
+				}
+			}
+		}
 		if what != "" {
 			x.fail(fmt.Sprintf("after op #%d (%s): %s", len(x.hist)-1, line, what), k)
 		}
